@@ -18,10 +18,13 @@
        whitespace run in front of a trim-marked opener is markup — so it is NOT part of the text element
        (left_trim_excludes_whitespace) — and in front of a plain opener it is text
        (plain_opener_keeps_whitespace).
+     - nothing of the source is lost or duplicated by the lexing: for every text the parse finishes with top-level
+       elements (Expression / Tag / Raw / InvalidLiquid) that tile it from the first character to the last, and the
+       concatenation of their texts is the text (source_is_the_concatenation_of_its_elements, elements_tile_the_text).
    Not proved (decided by the structural oracle and the pair-stream correspondence of
    tools/props/c03.py on every generated template): the same for texts with stray single braces
    (a brace not followed by a brace or percent sign) as a one-element statement, the span recovery of raw blocks and the discarding of comments. *)
-From LV Require Import Base Peg Grammar PegProofs RawProofs.
+From LV Require Import Base Peg PegTree Grammar PegProofs RawProofs TreeProofs TreeShape.
 
 Theorem whitespace_rule : forall fuel la s pos, 6 <= fuel ->
   ev liquid_grammar liquid_ws fuel Atomic la (PRef r_WHITESPACE) s pos =
@@ -92,6 +95,25 @@ Example trim_nonvacuous :
   end_spec close_exp close_exp_trim [45;125;125;32;10;120]%N 7 = Some ([120]%N, 12, []).
 Proof. vm_compute. repeat split; reflexivity. Qed.
 
+(* every text is tiled by its top-level elements; their texts, in order, are the text *)
+Theorem elements_tile_the_text : forall s, exists f, forall f', f <= f' ->
+  exists body,
+    parse_tree liquid_grammar liquid_ws f' r_LaxLiquidFile s =
+      Some (Some ([], length s, [TNode (mkTok r_LaxLiquidFile 0 (length s)) (body ++ [TNode (mkTok eoi_id (length s) (length s)) []])])) /\
+    Forall (fun t => In (root t) [r_Expression; r_Tag; r_Raw; r_InvalidLiquid]) body /\
+    tiles 0 (length s) body.
+Proof. exact TreeShape.elements_tile_the_text. Qed.
+Theorem source_is_the_concatenation_of_its_elements : forall s, exists f, forall f', f <= f' ->
+  exists body,
+    parse_tree liquid_grammar liquid_ws f' r_LaxLiquidFile s =
+      Some (Some ([], length s, [TNode (mkTok r_LaxLiquidFile 0 (length s)) (body ++ [TNode (mkTok eoi_id (length s) (length s)) []])])) /\
+    concat (map (span_text s) body) = s.
+Proof. exact TreeShape.source_is_the_concatenation_of_its_elements. Qed.
+(* the position reported by any evaluation is the number of characters consumed (any grammar) *)
+Theorem positions_count_characters : forall g ws f at_ la e s pos s' p' t,
+  ev g ws f at_ la e s pos = Some (Some (s', p', t)) -> p' + length s' = pos + length s.
+Proof. exact PegPos.ev_pos. Qed.
+
 Example c03_nonvacuous :
   match parse liquid_grammar liquid_ws 300 r_LaxLiquidFile [97;32;9;13;10;123;123;45;32;49;32;45;125;125;10;32;98]%N with
   | Some (Some (_, _, ts)) =>
@@ -113,3 +135,6 @@ Print Assumptions closing_delimiter_exact.
 Print Assumptions raw_rule_exact.
 Print Assumptions left_trim_excludes_whitespace.
 Print Assumptions plain_opener_keeps_whitespace.
+Print Assumptions elements_tile_the_text.
+Print Assumptions source_is_the_concatenation_of_its_elements.
+Print Assumptions positions_count_characters.
